@@ -51,13 +51,24 @@ class Counting:
         return ast
 
 
+class Rejecting:
+    def __init__(self, target):
+        self.target = target
+
+    def _default(self, ast, *args, **kwargs):
+        from tatsu.exceptions import FailedSemantics
+        if repr(tu.canon(ast)) == self.target:
+            raise FailedSemantics('rejected by the harness')
+        return ast
+
+
 def quiet_outcome(model, text, start, **kw):
     buf = io.StringIO()
     with contextlib.redirect_stderr(buf), contextlib.redirect_stdout(buf):
         return tu.outcome(lambda: model.parse(text, start=start, **kw))
 
 
-def check(gtext, start, text, lr, model=None):
+def check(gtext, start, text, lr, model=None, pick=None):
     """returns (detail|None, info)"""
     if model is None:
         try:
@@ -95,6 +106,21 @@ def check(gtext, start, text, lr, model=None):
                 if son != soff:
                     return dict(bucket='call-set', oracle='the set of ASTs handed to actions is the same with and without memoization',
                                 only_with_memo=sorted(son - soff)[:3], only_without=sorted(soff - son)[:3]), info
+            # a semantics that rejects one particular AST value (FailedSemantics): outcomes must not depend on memo settings
+            if con.calls and pick is not None:
+                target = repr(tu.canon(con.calls[pick % len(con.calls)]))
+                base = None
+                for name, kw, lr_ok in [('default', {}, True)] + VARIANTS[:7]:
+                    if lr and not lr_ok:
+                        continue
+                    o = quiet_outcome(model, text, start, semantics=Rejecting(target), **kw)
+                    if base is None:
+                        base = o
+                        info['rejecting'] = o[0]
+                    elif (o[:2] != base[:2]) if base[0] != 'ok' else (o != base):
+                        return dict(bucket=f'rejecting-semantics:{name}', oracle='with an action that raises FailedSemantics on one value, '
+                                    'the outcome is the same under every memoization setting', default=base, variant=o, settings=kw,
+                                    rejected_value=target), info
     except CaseTimeout:
         # exponential backtracking without memoization is what packrat parsing is for: inconclusive, not a violation
         info['timeout'] = True
@@ -103,7 +129,7 @@ def check(gtext, start, text, lr, model=None):
 
 
 def plan(tier):
-    n = 60 if tier == 'quick' else 1500
+    n = 100 if tier == 'quick' else 2000
     return [dict(n=n) for _ in range(16)]
 
 
@@ -118,7 +144,7 @@ def run_shard(sh, n):
         reset_tatsu_state()
         lr = lrgen is not None and rnd.random() < 0.3
         if lr:
-            spec = lrgen.gen_spec(rnd)
+            spec = lrgen.gen_spec(rnd, stmt_ok=True)
             base = lrgen.spec_text(spec)
             start0 = lrgen.start_rule(spec)
             inputs = [lrgen.gen_input(rnd, spec) for _ in range(4)]
@@ -144,7 +170,8 @@ def run_shard(sh, n):
             sh.fail(f'compile:{type(e).__name__}', dict(grammar=gtext, start=start, input='', lr=lr), dict(bucket=f'compile:{type(e).__name__}', observed=str(e)[:300]))
             return
         for text in inputs:
-            d, info = check(gtext, start, text, lr, model)
+            pick = rnd.randrange(1000)
+            d, info = check(gtext, start, text, lr, model, pick)
             nt = info.get('saved', 0) > 0 or '\n' in text or ('~' in gtext and info.get('base') == 'ok')
             cls = ['lr' if lr else 'non-lr', f'base:{info.get("base")}']
             if info.get('saved', 0) > 0:
@@ -155,12 +182,12 @@ def run_shard(sh, n):
             if info.get('timeout'):
                 sh.flag('inconclusive-timeout')
             if d is not None:
-                sh.fail(d['bucket'], dict(grammar=gtext, start=start, input=text, lr=lr, rules=None if lr else rules, start0=start0), d)
+                sh.fail(d['bucket'], dict(grammar=gtext, start=start, input=text, lr=lr, pick=pick, rules=None if lr else rules, start0=start0), d)
     hyp_run(sh, gen.rnds(), body, n)
 
 
 def replay(case):
-    d, _ = check(case['grammar'], case['start'], case['input'], case.get('lr', False))
+    d, _ = check(case['grammar'], case['start'], case['input'], case.get('lr', False), pick=case.get('pick'))
     return d
 
 
